@@ -8,12 +8,181 @@ B  every row TLC emitted is concretised (several spellings per abstract class, c
    the resolved address, the number of lookups, and an independent net/netip containment oracle.  Coupling rows go
    through the real ingestRegistration and the real Proxy with loopback listeners on a permitted and a forbidden address.
 C  seeded random strings x policies (incl. the shipped app_config.toml loaded through the real parser).
+S  session histories (spec/CovertPolicy/CovertSession.tla): the policy over ALL registration messages of one session.  TLC checks
+   DialedWasChecked, StoredIsCheckedLiteral, NoLookupAtDial, ... for the instances in which a duplicate message is ignored / re-checked;
+   the instance in which a duplicate refreshes the tracked registration's client-supplied fields (covert included) without the policy
+   must violate.  Every history of bounded depth (first message of every policy class, later messages of every class for the same
+   session, the first worker's release, connections, in every order) is run through the real parseRegMessage / ingestRegistration /
+   GetRegistrations / Proxy; the recording (phase, stored covert, DNS lookups per message, listener dialed) is validated by
+   Trace_CovertSession with DupMode = "any".
 """
-import json, os
+import copy, json, os
 import vlib
 
 PKG = "pkg/station/lib"
-FILES = ["common/vcommon_test.go", "pkg_station_lib/ingest_sched_verif_test.go", "pkg_station_lib/covert_verif_test.go"]
+FILES = ["common/vcommon_test.go", "pkg_station_lib/ingest_sched_verif_test.go", "pkg_station_lib/covert_verif_test.go",
+         "pkg_station_lib/covert_session_verif_test.go"]
+ST_FIELDS = ("phase", "stored", "lookups", "dialLookups", "dialed")
+
+
+def sessions(ctx, sdir, thorough):
+    """Stage S: multi-message histories of one session."""
+    r = ctx.tlc(sdir, "CovertSession.tla", "MC_CovertSession.cfg", timeout=600)
+    ctx.require_design_ok(r, "CovertSession (duplicates ignored)")
+    for cfg, what in (("MC_CovertSession_recheck.cfg", "duplicates re-checked"), ("MC_CovertSession_any.cfg", "either")):
+        ctx.require_design_ok(ctx.tlc(sdir, "CovertSession.tla", cfg, timeout=600), "CovertSession (%s)" % what)
+    b = ctx.tlc(sdir, "CovertSession.tla", "MC_CovertSession_refresh.cfg", timeout=300, count=False)
+    if b["inv"] not in ("StoredIsCheckedLiteral", "DialedWasChecked", "NoLookupAtDial"):
+        raise vlib.InfraError("the instance whose duplicates refresh the tracked covert unchecked should violate, got %s" % b["inv"])
+    b2 = ctx.tlc(sdir, "CovertSession.tla", "MC_CovertSession_refresh_dial.cfg", timeout=300, count=False)
+    if b2["inv"] not in ("DialedWasChecked", "NoLookupAtDial"):
+        raise vlib.InfraError("the refreshing instance should dial an unchecked address, got %s" % b2["inv"])
+    ctx.stage("A", nonvacuity_sessions="instance in which a duplicate message refreshes the tracked registration's covert without the policy "
+              "violates %s and (checked alone) %s" % (b["inv"], b2["inv"]))
+
+    g = ctx.tlc(sdir, "Gen_CovertSession.tla", "Gen_CovertSession_thorough.cfg" if thorough else "Gen_CovertSession.cfg", timeout=900, workers=8, count=False)
+    if g["inv"]:
+        raise vlib.InfraError("session history generator failed: " + g["out"][-1500:])
+    # longer histories (4 messages, 4 connections), sampled
+    sim = ctx.tlc(sdir, "Gen_CovertSession.tla", "Gen_CovertSession_sim.cfg", timeout=900, workers=4, count=False,
+                  simulate="num=%d" % (4000 if thorough else 400), depth=9, deadlock=False, extra=["-seed", str(ctx.seed)])
+    with open(g["beh_file"]) as fi:
+        lines = fi.readlines()
+    nexh = len(lines)
+    with open(sim["beh_file"]) as fi:
+        lines += sorted(set(fi.readlines()))
+    ctx.rng.shuffle(lines)
+    # every path of the bound is replayed (quick: depth 4, thorough: depth 5); "decisive" ones have a connection after a later message
+    def decisive(beh):
+        acts = [o["a"] for o in beh]
+        return "Dup" in acts and "Connect" in acts[acts.index("Dup"):]
+    kept = []
+    for i, line in enumerate(lines):
+        beh = json.loads(line)
+        kept.append((line, beh))
+    hin = os.path.join(ctx.scratch, "session_hist.ndjson")
+    with open(hin, "w") as fo:
+        for line, _ in kept:
+            fo.write(line)
+    hout = os.path.join(ctx.scratch, "session_out.ndjson")
+    res = ctx.go_test(PKG, FILES, "lib", "^TestVerifCovertSessions$", env={"VERIF_IN": hin, "VERIF_OUT": hout}, timeout=3000)
+    rows = ctx.read_results(hout)
+    summ = [x for x in rows if x.get("kind") == "summary"]
+    hist = [x for x in rows if x.get("kind") == "hist"]
+    if not summ or len(hist) != len(kept):
+        raise vlib.InfraError("session driver did not finish (%d of %d histories):\n%s" % (len(hist), len(kept), res["out"][-3000:]))
+    ctx.log("S: %d histories (%d exhaustive), %d steps, %d connections" % (len(kept), nexh, summ[0]["steps"], summ[0]["connections"]))
+
+    def strip(ev):
+        e = {"a": ev["a"], "st": {k: ev["st"][k] for k in ST_FIELDS}}
+        if "c" in ev:
+            e["c"] = ev["c"]
+        return e
+    traces, deviating, ndup_conn, direct = [], [], 0, {}
+    for h, (_, beh) in zip(hist, kept):
+        tr = [strip(e) for e in h["events"]]
+        traces.append(tr)
+        # as built, duplicates are ignored: the generator's own expectation.  A deviation from it is not a verdict (the
+        # property allows re-checking); it only tells where to look when the trace specification rejects.
+        diff = [(i, k) for i, (e, o) in enumerate(zip(tr, beh)) for k in ST_FIELDS if e["st"][k] != o["st"][k]]
+        if diff:
+            deviating.append((len(traces) - 1, diff))
+        if decisive(beh):
+            ndup_conn += 1
+        # the property read directly off the recording (independent of the specification): the forbidden listener is never
+        # reached, no name is looked up while a connection is served, a usable registration holds one of the literals
+        for ei, e in enumerate(h["events"]):
+            st = e["st"]
+            seq = " > ".join(x["a"] + ("(%s)" % x["c"] if "c" in x else "") for x in h["events"][:ei + 1])
+            if e["a"] == "Connect" and st["dialed"][-1] == "F":
+                direct.setdefault("session:forbidden-address-dialed", (seq, h, ei))
+            if e["a"] == "Connect" and st["dialLookups"] > (h["events"][ei - 1]["st"]["dialLookups"] if ei else 0):
+                direct.setdefault("session:name-resolved-at-dial-time", (seq, h, ei))
+            if st["phase"] == "valid" and st["stored"] == "raw":
+                direct.setdefault("session:usable-registration-holds-unchecked-string", (seq, h, ei))
+    if ndup_conn < 100:
+        raise vlib.InfraError("session histories are vacuous: only %d with a connection after a later message" % ndup_conn)
+
+    for key, (seq, h, ei) in sorted(direct.items()):
+        st = h["events"][ei]["st"]
+        ctx.violation(key, "history %s under policy kind %s: dialed %s, lookups while serving connections %d, stored covert %r"
+                      % (seq, h["pk"], st["dialed"], st["dialLookups"], st.get("stored_raw")), {"history": h, "event_index": ei})
+
+    def describe(ti, ei):
+        h, beh = hist[ti], kept[ti][1]
+        ev = h["events"][ei]
+        want = beh[ei]["st"]
+        fields = ["%s=%s" % (k, json.dumps(ev["st"][k]).replace('"', "").replace(" ", "")) for k in ST_FIELDS if ev["st"][k] != want[k]]
+        seq = " > ".join(e["a"] + ("(%s)" % e["c"] if "c" in e else "") for e in h["events"][:ei + 1])
+        key = "session:rejected:%s%s:%s" % (ev["a"], ":" + ev["c"] if "c" in ev else "", ",".join(fields) or "state")
+        what = ("history %s under policy kind %s: after this step the real code holds %s (stored covert %r); no behaviour of CovertSession in which "
+                "duplicates are ignored or re-checked does" % (seq, h["pk"], json.dumps({k: ev["st"][k] for k in ST_FIELDS}), ev["st"].get("stored_raw")))
+        return key, what, {"history": h, "as_built_expectation": beh, "event_index": ei}
+
+    def validate(idx, name):
+        ok, reached, total, tr = ctx.validate_traces(sdir, "Trace_CovertSession.tla", "Trace_CovertSession.cfg", [traces[i] for i in idx], name="trace.ndjson", timeout=1500)
+        if ok:
+            return None
+        # locate the event: traces are concatenated, each preceded by a Reset line
+        pos = 0
+        for i in idx:
+            n = len(traces[i]) + 1
+            if reached < pos + n:
+                return i, max(0, reached - pos - 1), tr
+            pos += n
+        return idx[-1], len(traces[idx[-1]]) - 1, tr
+
+    all_idx = list(range(len(traces)))
+    bad = validate(all_idx, "all")
+    nrej = 0
+    if bad:
+        # report the rejected history, then look at the other deviating ones for further distinct keys
+        cand = [ti for ti, _ in deviating]
+        seen = set()
+        while bad and nrej < 8:
+            ti, ei, tr = bad
+            key, what, detail = describe(ti, ei)
+            if tr["inv"]:
+                key = "session:invariant:%s:%s" % (tr["inv"], key.split(":", 2)[2])
+            detail["tlc"] = tr["out"][-1500:]
+            ctx.violation(key, what, detail)
+            nrej += 1
+            seen.add(key)
+            # next candidate whose first deviation is of a kind not yet reported
+            rest = []
+            for ci in cand:
+                if ci == ti:
+                    continue
+                d0 = [d for d in deviating if d[0] == ci][0][1][0][0]
+                if describe(ci, d0)[0] not in seen:
+                    rest.append(ci)
+            cand = rest
+            bad = validate(cand[:200], "rest") if cand else None
+    else:
+        # demonstrate the binding: the recording of a history with a forbidden later message, altered to what a station that
+        # adopts that message's covert would have recorded, must be rejected
+        alt = None
+        for ti, tr in enumerate(traces):
+            for ei, e in enumerate(tr):
+                if e["a"] == "Dup" and e.get("c") == "litF" and e["st"]["phase"] == "valid" and e["st"]["stored"] in ("P1", "P2"):
+                    alt = copy.deepcopy(tr)
+                    for later in alt[ei:]:
+                        later["st"]["stored"] = "F"
+                        if later["a"] == "Connect":
+                            later["st"]["dialed"][-1] = "F"
+                    break
+            if alt:
+                break
+        if not alt:
+            raise vlib.InfraError("no history to alter for the binding demonstration")
+        ok2, reached2, _, _ = ctx.validate_traces(sdir, "Trace_CovertSession.tla", "Trace_CovertSession.cfg", [traces[0], alt], timeout=300)
+        if ok2:
+            raise vlib.InfraError("session binding is vacuous: altered recording accepted")
+        ctx.stage("S", altered_recording_rejected_at=reached2)
+    ctx.sample({"stage": "S", "history": [e["a"] + ("(%s)" % e["c"] if "c" in e else "") for e in hist[0]["events"]], "final": hist[0]["events"][-1]["st"]})
+    ctx.stage("S", histories=len(kept), exhaustive=nexh, sampled_long=len(lines) - nexh, steps=summ[0]["steps"], connections=summ[0]["connections"],
+              connection_after_later_message=ndup_conn, deviating_from_as_built=len(deviating), rejected=nrej)
+    return len(traces), summ[0]["steps"]
 
 
 def run(ctx):
@@ -102,10 +271,15 @@ def run(ctx):
     for m in [x for x in rr if x.get("kind") == "mismatch"]:
         ctx.violation("covert-random:%s" % m["bad"], "ParseOrResolveBlocklisted(%r) -> %r under %s: %s" % (m["input"], m["got"], json.dumps(m.get("policy")), m["bad"]), m)
     ctx.stage("C", random_calls=rs[0]["calls"], mismatches=rs[0]["mismatches"])
-    ctx.cov["evaluations"] = summ[0]["calls"] + rs[0]["calls"] + 5
-    ctx.cov["distinct_nontrivial"] = summ[0]["rows"]
-    ctx.cov["traces_validated_against_impl"] = 0
-    ctx.cov["rule"] = "distinct = rows of the (input class, port class, address / resolver script, policy) table; all reach at least the parse stage"
+
+    ntr, nsteps = sessions(ctx, sdir, thorough)
+    ctx.cov["evaluations"] = summ[0]["calls"] + rs[0]["calls"] + 5 + nsteps
+    ctx.cov["distinct_nontrivial"] = summ[0]["rows"] + ntr
+    ctx.cov["traces_validated_against_impl"] = ntr
+    ctx.cov["rule"] = ("distinct = rows of the (input class, port class, address / resolver script, policy) table; all reach at least the parse stage; "
+                       "+ distinct session histories (message classes x release x connections, every order)")
     ctx.assumptions += ["'accepted unchanged' is read as: the same IP address and port (textual normalisation such as lower-casing or un-mapping is allowed)",
                         "DNS answers come from an in-process UDP server installed through net.DefaultResolver (PreferGo)",
-                        "the dial is observed with loopback listeners (127.0.0.2 permitted, 127.0.0.3 forbidden)"]
+                        "the dial is observed with loopback listeners (127.0.0.2 permitted, 127.0.0.3 forbidden)",
+                        "session histories: one session = one shared secret with the min transport; expiry between the messages of a history is not "
+                        "modelled (C08); whether a duplicate message is ignored or re-checked is left open, as the property does"]
